@@ -30,7 +30,7 @@ C_LIB_PASSTHRU = {'memcmp', 'memcpy', 'memmove', 'memset', 'strlen',
                   '__builtin_memcmp', '__builtin_memcpy', '__builtin_strlen', 'abort'}
 LIFT_NS = ('tao', 'vf')
 # library classes whose (inline, header-defined) member functions are lowered like PEGTL code
-LIFT_STD_RECORDS = ('std::basic_string_view', 'std::numeric_limits', 'std::char_traits')
+LIFT_STD_RECORDS = ('std::basic_string_view', 'std::numeric_limits', 'std::char_traits', 'std::initializer_list')
 SIGNED_C = {'char', 'signed char', 'short', 'int', 'long', 'long long', '__int128'}
 
 
